@@ -51,6 +51,10 @@ static void prop_solve(Tape &t, Ctx &c) {
     const ptrdiff_t n = A.n;
     std::vector<ptrdiff_t> dom = gen_partition(t, n, k);
     int ci = static_cast<int>(t.u(0, 1)), ri = static_cast<int>(t.u(0, 8)), si = static_cast<int>(t.u(0, 7));
+    // calibration aid (never set by bin/check): pin the relaxation / solver / coarsening of every generated case
+    if (const char *e = getenv("VF_C12_RELAX")) ri = atoi(e);
+    if (const char *e = getenv("VF_C12_SOLVER")) si = atoi(e);
+    if (const char *e = getenv("VF_C12_COARSE")) ci = atoi(e);
     bool single_level = t.chance(1, 8);
     boost::property_tree::ptree prm;
     if (single_level) { prm.put("precond.class", "relaxation"); prm.put("precond.type", RELAX[ri]); }
@@ -67,7 +71,7 @@ static void prop_solve(Tape &t, Ctx &c) {
     prm.put("solver.maxiter", 100);
     int L = 2;
     if (si == 2) { L = static_cast<int>(t.u(1, 3)); prm.put("solver.L", L); }
-    if (si == 6) prm.put("solver.s", static_cast<int>(t.u(1, 4)));
+    if (si == 6) prm.put("solver.s", static_cast<int>(t.u(1, std::max<ptrdiff_t>(1, std::min<ptrdiff_t>(4, n))))); // IDR(s) needs s <= n (s shadow vectors are orthonormalised in R^n)
     std::vector<double> f = gen_vec(t, n, static_cast<int>(t.u(0, 2)));
     bool nz = false; for (double v : f) nz = nz || v != 0; if (!nz && n) f[0] = 1;
 
